@@ -15,6 +15,7 @@ def corpus():
 
 def generate(rng, tier):
     yield from R.search_cases(tier)
+    yield from R.scale_cases(tier)
     for k in range(120 if tier == 'quick' else 12000):
         if k % 6 == 0:
             # claim/publish protocol under stress: several writers on a small ring that wraps several times, frequent
